@@ -97,6 +97,10 @@ func runC02(c *Ctx) {
 	checkReceivePathDoesNotClose(c, "R16")
 	checkReplyEncodersDoNotRefuse(c, "R17")
 	checkRepliesAreFresh(c, "R18")
+	// R19/R20 (= C14.R1/R2): one FIFO dispatcher, every hand-off registered first — a request registered late is
+	// answered out of order
+	c.withOnly("R1", "R19", func() { runC14(c) })
+	c.withOnly("R2", "R20", func() { runC14(c) })
 	pos := func(in ssa.Instruction) string { return p.Pos(in.Pos()) }
 	handle := p.Func("handlePacket")
 	worker := p.Func("(*RequestServer).packetWorker")
